@@ -92,6 +92,10 @@ def comparison_shape(ix, rep, cls):
                 env[t.id] = cached[E.self_loc(st.value)][0]
             else:
                 env[t.id] = alg.AlgEval(env, leaf).ev(st.value)
+        elif isinstance(t, ast.Tuple) and isinstance(st.value, ast.Tuple) and len(t.elts) == len(st.value.elts) and all(isinstance(e, ast.Name) for e in t.elts):
+            vals = [alg.AlgEval(env, leaf).ev(v) for v in st.value.elts]
+            for e, v in zip(t.elts, vals):
+                env[e.id] = v
         elif isinstance(t, ast.Tuple) and E.self_loc(st.value) in cached and len(t.elts) == len(cached[E.self_loc(st.value)]):
             for e, v in zip(t.elts, cached[E.self_loc(st.value)]):
                 env[e.id] = v
@@ -136,25 +140,90 @@ def comparison_shape(ix, rep, cls):
     t = the_if.test
     lo = hi = None
     strict = True
-    if isinstance(t, ast.BoolOp) and isinstance(t.op, ast.Or) and len(t.values) == 2:
-        for c in t.values:
-            if not (isinstance(c, ast.Compare) and len(c.ops) == 1):
-                continue
-            l, op, r = c.left, c.ops[0], c.comparators[0]
-            if ast.unparse(l) != dparam and ast.unparse(r) == dparam:
-                l, r = r, l
-                op = {ast.Lt: ast.Gt, ast.Gt: ast.Lt, ast.LtE: ast.GtE, ast.GtE: ast.LtE}[type(op)]()
-            if ast.unparse(l) != dparam:
-                continue
-            try:
-                bound = alg.AlgEval(env, leaf).ev(r)
-            except ValueError as ex:
-                raise AnalysisError('%s: cannot interpret bound `%s` (%s)' % (f.where, ast.unparse(r), ex))
-            if isinstance(op, (ast.Lt, ast.LtE)):
-                lo = bound
-            elif isinstance(op, (ast.Gt, ast.GtE)):
-                hi = bound
-            if isinstance(op, (ast.LtE, ast.GtE)):
+    FLIP = {ast.Lt: ast.Gt, ast.Gt: ast.Lt, ast.LtE: ast.GtE, ast.GtE: ast.LtE}
+    NEGATE = {ast.Lt: ast.GtE, ast.GtE: ast.Lt, ast.Gt: ast.LtE, ast.LtE: ast.Gt}
+
+    def bound_of(r):
+        try:
+            return alg.AlgEval(env, leaf).ev(r)
+        except ValueError as ex:
+            raise AnalysisError('%s: cannot interpret bound `%s` (%s)' % (f.where, ast.unparse(r), ex))
+
+    def link(l, op, r):
+        """one comparison -> atoms (operator class, bound) about the gap; [] when the gap is not an operand"""
+        if type(op) not in FLIP:
+            return None
+        if ast.unparse(l) != dparam and ast.unparse(r) == dparam:
+            l, r, op = r, l, FLIP[type(op)]()
+        if ast.unparse(l) == dparam:
+            return [(type(op), bound_of(r))]
+        # abs(gap - P) > T   <=>   gap < P - T or gap > P + T   (a disjunction; its negation a conjunction)
+        if isinstance(l, ast.Call) and isinstance(l.func, ast.Name) and l.func.id == 'abs' and len(l.args) == 1 and isinstance(l.args[0], ast.BinOp) \
+                and isinstance(l.args[0].op, ast.Sub):
+            a, b = l.args[0].left, l.args[0].right
+            centre = b if ast.unparse(a) == dparam else a if ast.unparse(b) == dparam else None
+            if centre is not None:
+                c_, t_ = bound_of(centre), bound_of(r)
+                if isinstance(op, (ast.Gt, ast.GtE)):
+                    return ('or', [(ast.Lt if isinstance(op, ast.Gt) else ast.LtE, c_ - t_), (type(op), c_ + t_)])
+                return ('and', [(ast.GtE if isinstance(op, ast.LtE) else ast.Gt, c_ - t_), (type(op), c_ + t_)])
+        return None
+
+    def disj(e):
+        """atoms whose disjunction is e, or None"""
+        if isinstance(e, ast.BoolOp) and isinstance(e.op, ast.Or):
+            out = []
+            for v in e.values:
+                d_ = disj(v)
+                if d_ is None:
+                    return None
+                out += d_
+            return out
+        if isinstance(e, ast.UnaryOp) and isinstance(e.op, ast.Not):
+            c_ = conj(e.operand)
+            return None if c_ is None else [(NEGATE[o], b) for o, b in c_]
+        if isinstance(e, ast.Compare) and len(e.ops) == 1:
+            r_ = link(e.left, e.ops[0], e.comparators[0])
+            if isinstance(r_, tuple):
+                return r_[1] if r_[0] == 'or' else None
+            return r_
+        return None
+
+    def conj(e):
+        if isinstance(e, ast.BoolOp) and isinstance(e.op, ast.And):
+            out = []
+            for v in e.values:
+                c_ = conj(v)
+                if c_ is None:
+                    return None
+                out += c_
+            return out
+        if isinstance(e, ast.UnaryOp) and isinstance(e.op, ast.Not):
+            d_ = disj(e.operand)
+            return None if d_ is None else [(NEGATE[o], b) for o, b in d_]
+        if isinstance(e, ast.Compare):
+            out = []
+            left = e.left
+            for op, right in zip(e.ops, e.comparators):
+                r_ = link(left, op, right)
+                if r_ is None:
+                    return None
+                if isinstance(r_, tuple):
+                    if r_[0] != 'and':
+                        return None
+                    r_ = r_[1]
+                out += r_
+                left = right
+            return out
+        return None
+    atoms = disj(t)
+    if atoms is not None and len(atoms) == 2:
+        for o, bnd in atoms:
+            if o in (ast.Lt, ast.LtE):
+                lo = bnd
+            else:
+                hi = bnd
+            if o in (ast.LtE, ast.GtE):
                 strict = False
     if lo is None or hi is None:
         rep.fail('R-JITTER', f.module.rel, sym, 'shape', 'the test is not `gap < LOW or gap > HIGH` (got `%s`)' % ast.unparse(t)[:80], the_if.lineno)
